@@ -14,6 +14,7 @@ class Server(object):
         self.pending_invalidations = []   # (target client id, [keys]) awaiting delivery by the harness
         self.subs = {}            # channel -> list of PubSub
         self.log = []
+        self.dead_listeners = []  # listener threads that died because their handler raised
 
     # tracking -----------------------------------------------------------
     def note_read(self, cid, key):
@@ -160,6 +161,7 @@ class PubSub(object):
         self.handlers = {}
         self.q = queue.Queue()
         self.handled = threading.Semaphore(0)
+        self.dead, self.died_of, self.unread = False, None, []
 
     def subscribe(self, *channels, **handlers):
         for ch in channels:
@@ -172,25 +174,38 @@ class PubSub(object):
             if self not in self.server.subs[ch]: self.server.subs[ch].append(self)
 
     def push(self, message):
-        """Called from the harness thread: hand the message to the listener thread and wait."""
+        """Called from the harness thread: hand the message to the listener thread and wait until it was handled.
+        If the listener thread has died (its handler raised) the message is simply never read, as with a real server."""
+        if self.dead:
+            self.unread.append(message)
+            return
         self.q.put(message)
-        self.handled.acquire()
+        if not self.handled.acquire(timeout=20):
+            raise RuntimeError("simulated redis: pubsub listener did not handle a message within 20 s (harness problem)")
 
     def listen(self):
         while True:
             m = self.q.get()
             ch = m["channel"].decode() if isinstance(m["channel"], bytes) else m["channel"]
             h = self.handlers.get(ch)
-            try:
-                if h is not None:
+            if h is not None:
+                try:
                     h(m)
-                else:
+                except BaseException as e:
+                    self.dead = True
+                    self.died_of = "%s: %s" % (type(e).__name__, e)
+                    self.server.dead_listeners.append(dict(client=self.client_id, error=self.died_of, message=repr(m)[:200]))
                     self.handled.release()
+                    raise
+                self.handled.release()
+            else:
+                self.handled.release()
+                try:
                     yield m
-                    continue
-            finally:
-                pass
-            self.handled.release()
+                except GeneratorExit:      # the consumer stopped listening (store.stop())
+                    self.dead = True
+                    self.died_of = "listener stopped"
+                    raise
 
 
 # ----------------------------------------------------------------------------- pottery
